@@ -11,7 +11,10 @@ ASSUMPTIONS = ['row order after an aggregation that is not followed by a sort is
 
 
 def uses_dur(x):
+    """does the pipeline compute durations or dates?  They print as text, so a table holding them cannot be re-fed"""
     if isinstance(x, tuple) and len(x) == 2 and x[0] == 'dur':
+        return True
+    if isinstance(x, (list, tuple)) and len(x) >= 2 and x[0] in ('call', 'timeslice') and (x[0] == 'timeslice' or x[1] == 'parseDate'):
         return True
     if isinstance(x, (list, tuple)):
         return any(uses_dur(y) for y in x)
